@@ -45,6 +45,9 @@ var ExtraKnobs = []string{
 	// implementers narrow covariantly; operations select one inner response key under several combinations
 	// of outer and inner type conditions (needs interfaces)
 	"covariant",
+	// every interface declares an entity hop whose entity has a leaf in another subgraph; operations select the hop
+	// under several type-condition scopes of the abstract parent; lists hold every implementer (needs interfaces)
+	"scopedhops",
 }
 
 // AllKnobsV2 = AllKnobs followed by ExtraKnobs.
@@ -389,7 +392,7 @@ func GenConfig(r *common.Rand, k Knobs) *Config {
 		if nI == 0 && r.Chance(1, 2) {
 			nI = 1
 		}
-		if k["covariant"] && nI == 0 {
+		if (k["covariant"] || k["scopedhops"]) && nI == 0 {
 			nI = 1
 		}
 		for i := 0; i < nI; i++ {
@@ -473,6 +476,9 @@ func GenConfig(r *common.Rand, k Knobs) *Config {
 			}
 			if k["covariant"] {
 				g.addCovariant(query, idef, impls, h, i+1)
+			}
+			if k["scopedhops"] {
+				g.addScopedHop(query, idef, impls, h)
 			}
 			for _, t := range impls {
 				t.def.Implements = append(t.def.Implements, idef.Name)
